@@ -476,11 +476,13 @@ func (c *Core) localDelivery(bp BundleDescriptor) {
 	bp.AddConstraint(LocalEndpoint)
 	_ = bp.Sync()
 
-	if err := c.agentManager.Deliver(bp); err != nil {
+	deliverErr := c.agentManager.Deliver(bp)
+	if err := deliverErr; err != nil {
 		log.WithField("bundle", bp.ID()).WithError(err).Warn("Delivering local bundle errored")
 	}
 
-	if bp.MustBundle().PrimaryBlock.BundleControlFlags.Has(bpv7.StatusRequestDelivery) {
+	// Only report a delivery which took place, i.e., some agent took the bundle.
+	if deliverErr == nil && bp.MustBundle().PrimaryBlock.BundleControlFlags.Has(bpv7.StatusRequestDelivery) {
 		c.SendStatusReport(bp, bpv7.DeliveredBundle, bpv7.NoInformation)
 	}
 
